@@ -199,7 +199,7 @@ def r3(fx):
     genv = encoder_env(fx.forest, it)
     sa_if = single([s for s in enc.body if isinstance(s, ast.If) and ast.unparse(s.test) == 'sa_mode'], '`if sa_mode:`')
     sm = single([s for s in enc.body if isinstance(s, ast.Assign) and ast.unparse(s.targets[0]) == 'sa_mode'], 'sa_mode')
-    yield ob('sa_mode = sa_info is not None', nf.norm(sm.value) == 'sa_info is not None', sm, got=ast.unparse(sm.value), want='sa_info is not None')
+    yield ob('sa_mode = sa_info is not None', nf.same(sm.value, 'sa_info is not None'), sm, got=ast.unparse(sm.value), want='sa_info is not None')
 
     class SA(tuple):
         _model = ('parity', 'number', 'total', 'mode')
@@ -215,7 +215,7 @@ def r3(fx):
     new = fx.fn('encoder', '_StructuredAppendInfo.__new__')
     r = single([s for s in new.body if isinstance(s, ast.Return)], 'return of _StructuredAppendInfo.__new__')
     b = pat.need(r.value, 'super().__new__(cls, H_t)', '_StructuredAppendInfo.__new__')
-    yield ob('_StructuredAppendInfo = (0011, number, total, parity)', nf.norm(b['t']) == '(consts.MODE_STRUCTURED_APPEND, number, total, parity)'
+    yield ob('_StructuredAppendInfo = (0011, number, total, parity)', nf.same(b['t'], '(consts.MODE_STRUCTURED_APPEND, number, total, parity)')
              and C(fx, 'MODE_STRUCTURED_APPEND') == 0b0011, r, got=ast.unparse(b['t']), want='(consts.MODE_STRUCTURED_APPEND, number, total, parity)')
     props = {ast.unparse(s.targets[0]): ast.unparse(s.value) for s in cls.body if isinstance(s, ast.Assign)}
     yield ob('field accessors', props.get('parity') == 'property(itemgetter(3))' and props.get('number') == 'property(itemgetter(1))'
